@@ -340,7 +340,7 @@ def availableSt (st : Index) (f : Path) : List Def × Index :=
     let (table, st1) := (ancestorsOfDir (dirOf f)).foldl
       (fun (acc : List (Path × List String) × Index) dir =>
         let c := conftestOf dir
-        if ahas acc.2.cache c then
+        if acc.2.existsOnDisk c || ahas acc.2.cache c then
           let (names, _, st') := imported acc.2.fuelFor acc.2 c []
           (acc.1 ++ [(c, names)], st')
         else acc) ([], st)
